@@ -364,7 +364,7 @@ def check(ctx):
              'unsigned_value is computed as %s: deciding the sign on the value already truncated to 32 bits marks members with bit 31 set (1<<31) as signed, and they read back negative'
              % [t for t, st in uv], detail=[t for t, st in uv])
     FE = cgsa.summarise(ctx, 'girepository/girnode.c', 'find_entry_node')
-    hits = [e for e in FE.effects if e.kind in ('goto', 'return') and e.loops]
+    hits = [e for e in FE.effects if e.kind in ('goto', 'return', 'break') and e.loops]
     dotted = [a_ for a_ in FE.atoms() if re.match(r'^1 < ', a_)]
     xref = [a_ for a_ in FE.atoms() if re.search(r'->type == G_IR_NODE_XREF$', a_)]
     okx = bool(hits) and bool(dotted) and bool(xref) and all(not gsa.can_hold(e.cond, dict([(a_, True) for a_ in dotted] + [(a_, False) for a_ in xref])) for e in hits) and \
